@@ -608,8 +608,11 @@ class FuncAdd(ValueFunc):
             return result
 
         if a.isDate() and b.isNumerical():
-            return ValueDecimal(
-                to_oa_date(a.value) + args.getAsDecimal("b").value
+            return decimal_op(
+                operator.add,
+                to_oa_date(a.value),
+                args.getAsDecimal("b").value,
+                pos,
             ).asDate()
 
         if (a.isString() and b.isAtomic()) or (a.isAtomic() and b.isString()):
@@ -4022,8 +4025,11 @@ class FuncSub(ValueFunc):
             if b.isDate():
                 diff = to_oa_date(a.value) - to_oa_date(b.value)
                 return ValueInt(round(diff))
-            return ValueDecimal(
-                to_oa_date(a.value) - args.getAsDecimal("b").value
+            return decimal_op(
+                operator.sub,
+                to_oa_date(a.value),
+                args.getAsDecimal("b").value,
+                pos,
             ).asDate()
 
         if a.isNull() or b.isNull():
